@@ -8,13 +8,14 @@ Direct oracle: the property on the boundary ledger and on what the peer sees, wi
 import asyncio
 import gc
 import logging
+import os
 
 from h2.events import RemoteSettingsChanged, RequestReceived, WindowUpdated
 from h2.settings import SettingCodes
 
 from harness import vloop, wire, peer as P
 from harness.core import Result
-from harness.ledger import Ledger, model_tokens, parse_model_answer
+from harness.ledger import Ledger, canonical_log, model_tokens, parse_model_answer, _attrs
 from harness.svc import Service
 
 PROPERTY = 'C08'
@@ -22,8 +23,10 @@ THEOREM_FILES = ['Props/C08.v']
 ALLOWED_AXIOMS = []
 LABEL = ('full on the model (all histories of the event alphabet, all window values); hyper-h2 itself '
          '(window managers, WINDOW_UPDATE coalescing, DATA on closed streams) is modelled/observed, not verified')
-TRUSTED = ['harness/ledger.py: instance-level wrappers of H2Connection.receive_data / acknowledge_received_data, '
-           'EventsProcessor.process / register / close and Buffer.read / Buffer._unacked.get (record and delegate only)',
+TRUSTED = ['harness/ledger.py: instance-level wrappers of H2Connection.receive_data / acknowledge_received_data (h2 public '
+           'API), of the events processor\'s register() (+ the release function it returns) and of the protocol stream\'s '
+           'recv_data() coroutine, all located by role and record-and-delegate only; a component that cannot be located '
+           'is masked on both sides of the comparison and counted as unobservable in the evidence',
            'modelled, not verified: hyper-h2 4.3 (flow_controlled_length, increment_flow_control_window / '
            'update_settings range checks, window-manager coalescing of WINDOW_UPDATE, automatic credit of DATA on '
            'closed streams), asyncio.Queue.get (an item is not lost when the getter is cancelled)']
@@ -32,7 +35,7 @@ ASSUMPTIONS = ['one reader per stream (grpclib streams are read by the task that
                'sizes reported by h2 are non-negative',
                'no-leak statements are for live connections: a release on a closing connection does not acknowledge '
                '(modelled and stated as `dropped`)',
-               'window configuration values are Python ints (config._of_type(int) refuses everything else first)']
+               'window configuration values are Python ints (the Configuration validators refuse everything else first)']
 
 WMIN, WMAX = 2 ** 16 - 1, 2 ** 31 - 1
 BOUNDARY_WINDOWS = [WMIN, WMIN, WMIN + 1, WMAX, WMAX - 1, 4 * 2 ** 20, 2 * WMIN, 2 ** 30, 2 ** 24 + 1]
@@ -267,16 +270,50 @@ class LedgerClientEnd(wire.ClientEnd):
         self.ledgers = []
         self.handshakes = []
 
-    async def _create_connection(self):
-        proto = await super()._create_connection()
+    async def attempt(self, factory):
+        proto = await super().attempt(factory)
         self.handshakes.append(handshake_view(self.peer, self.peer.take_events()))
-        self.ledgers.append(Ledger(proto))
+        self.ledgers.append(Ledger(proto, self.transport))
         return proto
 
 
+def below_of_type(obj, cls):
+    """the instance attribute of obj that is a `cls` (located by type, not by name); None if there is none"""
+    if cls is None or obj is None:
+        return None
+    for _, v in _attrs(obj):
+        if isinstance(v, cls):
+            return v
+    return None
+
+
+def proto_stream_of(stream):
+    """the protocol-level stream (the object offering recv_data) behind a client / server call stream"""
+    try:
+        from grpclib.protocol import Stream as PStream
+    except Exception:
+        PStream = None
+    v = below_of_type(stream, PStream)
+    if v is None:
+        for _, w in _attrs(stream):
+            if callable(getattr(w, 'recv_data', None)) and callable(getattr(w, 'send_data', None)):
+                return w
+    return v
+
+
+def wrapper_of(stream):
+    try:
+        from grpclib.utils import Wrapper
+    except Exception:
+        return None
+    return below_of_type(stream, Wrapper)
+
+
 class _LogOnly:
-    def __init__(self, log):
-        self.log = log
+    def __init__(self, led):
+        self.log = led.log
+        self.unobservable = set(led.unobservable)
+        self.ordered = led.ordered
 
 
 class Run:
@@ -300,11 +337,14 @@ class Run:
         self.tasks = {}
         self.led = None
         self.peer = None
+        self.transport = None
+        self.harness_errors = []
         self.handshake = None
         self.wu_seen = {}
         self.window = None
         self.all_finished = False
         self.not_finished = False
+        self.no_connection = False
         self.unhandled = 0
         self.checked = {'never-over-credited': 0, 'finished-fully-credited': 0, 'active-backpressure': 0,
                         'active-backpressure-with-unread-data': 0}
@@ -334,11 +374,15 @@ class Run:
                 elif op == 'wait':
                     await self.gos[i].wait()
                 elif op.startswith('raw:'):
-                    if self.side == 'client':       # the client's own reads all run inside the call's wrapper
-                        with stream._wrapper:
-                            await raw.recv_data(int(op[4:]))
+                    raw = raw or self.raw_of(i, stream)
+                    w = wrapper_of(stream) if self.side == 'client' else None
+                    if raw is None:
+                        self.skipped += 1           # the protocol stream cannot be located: the op is not run
+                    elif w is not None:             # the client's own reads all run inside the call's wrapper
+                        with w:
+                            await self.raw_read(raw, int(op[4:]))
                     else:
-                        await raw.recv_data(int(op[4:]))
+                        await self.raw_read(raw, int(op[4:]))
                 elif op == 'cancel':
                     await stream.cancel()
                 elif op == 'raise':
@@ -348,9 +392,33 @@ class Run:
         finally:
             self.done[i] = True
 
-    def gone(self, stream):
+    def note_error(self, e):
+        """exceptions that end a program are expected (reset, truncated message, ...); one raised by harness code
+        itself is remembered and shown in the evidence"""
+        import traceback
+        tb = traceback.extract_tb(e.__traceback__)
+        if tb and os.sep + 'harness' + os.sep in tb[-1].filename and not isinstance(e, Boom):
+            self.harness_errors.append('%s: %s' % (type(e).__name__, str(e)[:120]))
+
+    def gone(self, stream=None):
         """the connection is lost or closing (also when grpclib closed it itself, e.g. after a protocol error)"""
-        return self.lost or stream._stream.connection.is_closing()
+        t = self.transport
+        return self.lost or (t is not None and (t.closing or t.lost))
+
+    async def raw_read(self, raw, n):
+        f = getattr(raw, 'recv_data', None)
+        if f is None:
+            self.skipped += 1        # the protocol stream offers no recv_data: the op is not run
+            return None
+        return await f(n)
+
+    def raw_of(self, i, stream):
+        """the protocol stream of call i: below the call's stream object (by type), else the one the ledger saw
+        being registered for that stream id"""
+        raw = proto_stream_of(stream)
+        if raw is None and self.led is not None and i in self.sid:
+            raw = self.led.streams.get(self.sid[i])
+        return raw
 
     def spawn_bg(self, i, stream, raw, bg, gated):
         async def reader():
@@ -363,30 +431,39 @@ class Run:
                     if op == 'msg':
                         await stream.recv_message()
                     else:
-                        await raw.recv_data(int(op[4:]))
-            except Exception:
-                pass
+                        r = raw or self.raw_of(i, stream)
+                        if r is None:
+                            break
+                        await self.raw_read(r, int(op[4:]))
+            except Exception as e:
+                self.note_error(e)
         self.bg.append(asyncio.get_event_loop().create_task(reader()))
 
     def server_handler(self, i):
         async def h(stream):
-            await self.program(i, stream, stream._stream)
+            try:
+                await self.program(i, stream, proto_stream_of(stream))
+            except Exception as e:
+                self.note_error(e)
+                raise
         return h
 
     async def client_call(self, i, method):
         stream = None
         try:
-            async with method.open() as stream:
+            async with method.open(metadata={'x-call': str(i)}) as stream:     # the peer tells the calls apart
                 await stream.send_request()
-                self.sid[i] = stream._stream.id
-                await self.program(i, stream, stream._stream)
-        except (Boom, Exception):
-            pass
+                raw = proto_stream_of(stream)
+                if isinstance(getattr(raw, 'id', None), int):
+                    self.sid[i] = raw.id
+                await self.program(i, stream, raw)
+        except (Boom, Exception) as e:
+            self.note_error(e)
         finally:
             self.done[i] = True
             bg = self.case['streams'][i].get('bg')
             if bg is not None and bg['after'] and stream is not None and i in self.sid:
-                self.spawn_bg(i, stream, stream._stream, bg, gated=False)   # reads after the `async with` block
+                self.spawn_bg(i, stream, self.raw_of(i, stream), bg, gated=False)   # reads after the `async with` block
 
     # -- peer actions
     def frames(self, frs):
@@ -443,6 +520,8 @@ class Run:
                 self.cancelled.add(a['cancel_task'])
         elif 'lose' in a:
             self.lost = True
+            if self.led is not None:
+                self.led.note_close()
             self.transport.lose()
             for t in self.bg:           # grpclib cancels the tasks it manages; the readers it does not know end here
                 if not t.done():
@@ -462,7 +541,7 @@ class Run:
                 se = wire.ServerEnd(loop, [svc], config=cfg)
                 self.peer, self.transport, self.end = se.peer, se.transport, se
                 self.handshake = handshake_view(se.peer, se.peer.take_events())
-                self.led = Ledger(se.proto)
+                self.led = Ledger(se.proto, se.transport)
             else:
                 from grpclib.client import StreamStreamMethod
                 ce = LedgerClientEnd(loop, config=cfg)
@@ -486,6 +565,10 @@ class Run:
                 for ev in self.peer.take_events():
                     if isinstance(ev, WindowUpdated):
                         self.wu_seen[ev.stream_id] = self.wu_seen.get(ev.stream_id, 0) + ev.delta
+                    elif isinstance(ev, RequestReceived) and self.side == 'client':
+                        for k, v in ev.headers:
+                            if k == 'x-call' and v.isdigit():
+                                self.sid.setdefault(int(v), ev.stream_id)
                 self.snapshot(loop)
             if self.led is not None:
                 if self.transport.paused and not self.lost:      # the ledger is judged after the final resume
@@ -513,7 +596,7 @@ class Run:
         """keep only what the comparison with the model needs, so that the loop, the tasks and the protocol
         objects of this history can be freed (asyncio.all_tasks() walks every task still alive)"""
         log = self.led.log if self.led is not None else None
-        self.led = _LogOnly(log) if log is not None else None
+        self.led = _LogOnly(self.led) if log is not None else None
         self.end = self.peer = self.transport = self.method = self.gos = self.gos2 = None
         self.tasks = {}
         self.bg = []
@@ -541,17 +624,17 @@ class Run:
 
     def snapshot(self, loop):
         led = self.led
-        alive = not self.lost and not led.conn.is_closing()
+        alive = not self.lost and not led.closing()
         # while writing is paused a server handler that has finished is still waiting to send its trailers, so
         # its release is legitimately deferred (the credit of what it read is NOT deferred)
         settled = not (self.side == 'server' and self.transport.paused)
         snap = {'n': len(led.log), 'streams': {}, 'alive': alive}
         for sid in led.sids():
             snap['streams'][sid] = (led.received.get(sid, 0), led.credited.get(sid, 0), led.forfeited(sid),
-                                    led.held(sid), 1 if sid in led.processor.streams else 0)
+                                    led.held(sid), 1 if led.is_registered(sid) else 0)
         snap['conn'] = led.totals()
         snap['finished_registered'] = sorted(sid for i, sid in self.sid.items()
-                                             if settled and self.finished(i) and sid in led.processor.streams)
+                                             if settled and self.finished(i) and led.is_registered(sid))
         self.snaps.append(snap)
         # ---- direct oracle, at every quiescent point
         inv = {v: k for k, v in self.sid.items()}
@@ -570,7 +653,7 @@ class Run:
                                   'bytes were credited' % (sid, c, r),
                                   {'kind': 'leak', 'level': 'stream', 'never_read': first, 'side': self.side}, [r, c]))
             elif alive and i is not None and not self.finished(i) and sid not in led.cancelled_reads \
-                    and sid in self.peer.h2.streams:
+                    and sid in self.peer.h2.streams and led.ordered:
                 exp = self.expected_credit(sid)
                 self.checked['active-backpressure'] += 1
                 if exp < r:
@@ -599,7 +682,7 @@ class Run:
     def final(self, loop):
         led = self.led
         if led is None:
-            self.fail.append(('no connection was made', {'kind': 'harness'}, None))
+            self.no_connection = True        # nothing to observe (not a C08 verdict); counted in the evidence
             return
         hs = self.handshake
         if hs['conn'] != self.case['cw'] or hs['stream'] != self.case['sw']:
@@ -608,7 +691,7 @@ class Run:
         pending = [i for i in range(self.k) if i in self.sid and not self.finished(i)]
         stuck = [t for t in loop.pending_tasks() if t not in self.bg]
         self.all_finished = not pending and not stuck
-        alive = not self.lost and not led.conn.is_closing()
+        alive = not self.lost and not led.closing()
         tr, tc = led.totals()
         self.window = None
         # a call that cannot finish (a program that swallowed its cancellation and waits for data that will never
@@ -680,52 +763,59 @@ def run_cfg(case):
 
 # ---- comparison -------------------------------------------------------------------------------------
 
+def prefix_tokens(led, n):
+    return model_tokens(canonical_log(led.log[:n]))
+
+
 def hist_lines(run):
     led = run.led
-    if led is None:
+    if led is None or not led.ordered:
         return []
-    evs, _ = model_tokens(led.log)
-    lines, cut = [], []
-    # number of input events among the first n log entries
-    is_input = [e[0] in ('open', 'data', 'end', 'read', 'wake', 'cancel', 'release', 'close', 'pause', 'resume')
-                for e in led.log]
-    pref = [0]
-    for b in is_input:
-        pref.append(pref[-1] + (1 if b else 0))
+    lines = []
     for snap in run.snaps:
         if snap is None:
             continue
-        k = pref[snap['n']]
-        cut.append(k)
-        lines.append('h ' + ' '.join(evs[:k]))
+        evs, _ = prefix_tokens(led, snap['n'])
+        lines.append('h ' + ' '.join(evs))
     return lines
+
+
+def mask(model_v, impl_v):
+    """a component the harness could not observe (None on the implementation side) is masked on both sides"""
+    return tuple(None if b is None else a for a, b in zip(model_v, impl_v))
 
 
 def compare_hist(res, case, run, answers):
     led = run.led
     if led is None:
         return
-    evs, outs = model_tokens(led.log)
+    for u in sorted(led.unobservable):
+        res.count('unobservable:' + u)
+    if not led.ordered:
+        res.count('unobservable:model-comparison-skipped')
+        return
     snaps = [s for s in run.snaps if s is not None]
+    evs, outs = [], []
     for snap, line in zip(snaps, answers):
         res.traces += 1
         if line.startswith('DRIVER-ERROR'):
             res.disagreements.append({'case': case, 'model': line, 'impl': 'driver error'})
             return
         trace, streams, conn = parse_model_answer(line)
-        k = len(trace)
+        evs, outs = prefix_tokens(led, snap['n'])
         impl_streams = {sid: tuple(v) for sid, v in snap['streams'].items()}
-        impl = {'trace': outs[:k], 'streams': impl_streams, 'conn': list(snap['conn'])}
+        impl = {'trace': outs, 'streams': impl_streams, 'conn': list(snap['conn'])}
         model = {'trace': trace, 'streams': {s: v for s, v in streams.items()}, 'conn': [conn[0], conn[1]]}
         for sid in impl_streams:
             model['streams'].setdefault(sid, (0, 0, 0, 0, 0))
+            model['streams'][sid] = mask(model['streams'][sid], impl_streams[sid])
         if not conn[5]:
             model['illegal'] = True
         # the theorems speak about released streams; the code must release every call that has finished
         model['finished_calls_still_registered'] = []
         impl['finished_calls_still_registered'] = snap['finished_registered']
         if model != impl:
-            res.disagreements.append({'case': case, 'model': model, 'impl': impl, 'after_events': evs[:k]})
+            res.disagreements.append({'case': case, 'model': model, 'impl': impl, 'after_events': evs})
             return
     for t in evs:
         res.count('event:' + t[0])
@@ -753,7 +843,7 @@ def classify(res, case, run):
             res.count('release:credits-unread')
         if len(rel) > 1:
             res.count('release:repeated')
-        if led.received.get(sid) and sid not in led.buffers:
+        if led.received.get(sid) and sid not in led.streams:
             res.count('data:unknown-stream')
     late = 0
     released = set()
@@ -791,6 +881,12 @@ def classify(res, case, run):
         res.count('end:all-finished-alive')
     if run.not_finished:
         res.count('end:some-call-not-finished')
+    if run.no_connection:
+        res.count('unobservable:no-connection')
+    for m in run.harness_errors[:3]:
+        res.count('harness-error-in-program:' + m.split(':')[0])
+        if len(res.notes) < 3:
+            res.notes.append('harness error inside a program: ' + m)
     for a in case['actions']:
         fr = a.get('frames') or []
         if len(fr) > 1 and fr[0][0] == 'H' and fr[-1][0] == 'R' and case['side'] == 'server':
@@ -803,6 +899,7 @@ def classify(res, case, run):
 
 def check_hist_cases(ctx, res, cases):
     runs = []
+    harness_errors = 0
     for n, case in enumerate(cases):
         if n % 400 == 0:
             gc.collect()        # asyncio.all_tasks() walks every task object still alive, also of closed loops
@@ -811,9 +908,20 @@ def check_hist_cases(ctx, res, cases):
             run = run_hist(case)
         except Exception as e:       # the implementation (or the harness) raised out of a step
             import traceback
-            res.oracle_failures.append({'case': case, 'what': 'exception escaped while driving the history: %s'
-                                        % type(e).__name__, 'signature': {'kind': 'exception', 'exc': type(e).__name__},
-                                        'observed': traceback.format_exc()[-600:]})
+            tb = traceback.extract_tb(e.__traceback__)
+            where = tb[-1].filename if tb else ''
+            if os.sep + 'harness' + os.sep in where and 'grpclib' not in where:
+                # the exception was raised by harness code itself: not a verdict about grpclib; the case is not
+                # evaluated, which the evidence shows; too many of them break the tie (see below)
+                res.count('harness-error:' + type(e).__name__)
+                if len(res.notes) < 3:
+                    res.notes.append('harness error in a history: ' + traceback.format_exc()[-400:])
+                harness_errors += 1
+            else:
+                res.oracle_failures.append({'case': case, 'what': 'exception escaped while driving the history: %s'
+                                            % type(e).__name__,
+                                            'signature': {'kind': 'exception', 'exc': type(e).__name__},
+                                            'observed': traceback.format_exc()[-600:]})
             runs.append(None)
             continue
         runs.append(run)
@@ -832,6 +940,8 @@ def check_hist_cases(ctx, res, cases):
         run.slim()
         res.sample({'case': case, 'log': run.led.log[:40] if run.led else None, 'handshake': run.handshake,
                     'window_deficit_vs_h2_pending': run.window}, limit=4)
+    if harness_errors > max(3, len(cases) // 20):
+        raise RuntimeError('%d of %d histories could not be driven (harness errors)' % (harness_errors, len(cases)))
     if ctx.model_ok:
         lines, spans = [], []
         for run in runs:
